@@ -73,6 +73,15 @@ VARIANTS = [
       lambda nd: isinstance(nd, ast.If) and ast.unparse(nd.test) == "copy",
       lambda nd: ast.If(test=expr("not copy"), body=nd.body, orelse=nd.orelse),
       note="deep copy exactly when NOT requested", expect_rule="C15.R5"),
+    V("c15_closure_var_guard", "M", M, "GraphBuilder._all_nodes_and_vars",
+      *replace_expr("node.var in all_vars", "node.var not in all_vars"),
+      note="variables of nodes are never collected", expect_rule="C15.R2"),
+    V("c15_closure_returns_worklist", "M", M, "GraphBuilder._all_nodes_and_vars",
+      lambda nd: isinstance(nd, ast.Return), lambda nd: stmt("return nodes, all_vars"),
+      note="returns the (empty) worklist", expect_rule="C15.R2"),
+    V("c15_setstate_inverted", "M", "liesel/model/nodes.py", "Node.__setstate__",
+      *replace_expr("self._model is not None", "self._model is None"),
+      note="unpickled nodes lose their model reference", expect_rule="C15.R6"),
     # ---- twins
     V("c15_t_dup_ge2", "T", M, "Model.__init__",
       lambda nd: isinstance(nd, ast.Compare) and ast.unparse(nd) == "v > 1",
